@@ -484,7 +484,8 @@ def s3_grammar(prog, rep, memory_rule=None):
     steps = [e for e in f.all_elems() if e.is_incdec and norm(e.kid(0)) == sp]
     moves = [e for e in f.all_elems() if e.is_assign and norm(e.kid(0)) == sp]
     if not steps or moves or not all(e.op.endswith("++") for e in steps):
-        raise cdb.AnalysisBroken("humansize_parse no longer advances its cursor one byte at a time: the machine cannot be extracted")
+        rep.defer_broken("humansize_parse no longer advances its cursor one byte at a time: the machine cannot be extracted")
+        return
 
     def choose(cond, env):
         # a test of the accumulated value is an overflow guard: the grammar is what is accepted when none fires
